@@ -4,6 +4,10 @@ the interface file; run after adding a check)."""
 import json, subprocess
 
 CHECKS = {
+ "C01": dict(cat="model_checking", ref="DESIGN.md §3-E2, §4 C01",
+  text="Three exhaustive layers. (1) Explicit-state product automata per (pattern, flag set), over ALL lines: the pattern as written (harness-built from the flag documentation: -i/-S, -w, -x, -F, --crlf, --null-data, several -e) vs the matcher's final HIR; and the final HIR run inside a buffer (fast path) vs on the stripped line (slow path); witnesses are confirmed on the real Searcher before they count. (2) Bounded exhaustive enumeration on the real Searcher: every byte string over {a,b,-,\\n,\\r,0xFF,é} up to length 4/5 x 61 patterns x 7 option sets x invert x strategies: fast path == slow path == per-line reference regex. (3) the rg command line: all small flag subsets x patterns x files against the same reference.",
+  note="Trusted: regex-syntax / regex-automata as the meaning of patterns. Under --crlf 'as written' is judged on lines without \\r (documented: the matcher never matches \\r), fast==slow on all lines. Known finding (open, regex engine): Unicode word boundaries next to invalid UTF-8.",
+  tech="explicit-state model checking of product automata (all lines per pattern) + bounded exhaustive enumeration of inputs x patterns x flags on the real searcher and CLI"),
  "C02": dict(cat="exploration", ref="DESIGN.md §4 C02",
   text="Bounded exhaustive differential enumeration: for every input up to a length bound, every searcher configuration and matcher line path, the Sink event stream of search_slice is compared with search_reader under EVERY history (roll-buffer capacities 1,2,3,5,8 via the hook x every composition of the input length as read sizes, heap limits 1..len+2, Interrupted at every read index on the multi-line reader path) and with search_path (mmap / no mmap) and search_file.",
   note="Trusted: search_slice as the reference (C03 checks it against the grep model). Not covered: inputs above the length bound, capacities above 8.",
